@@ -9,3 +9,6 @@ CONSTANTS
   BBit <- CBBit
   BBase <- CBBase
   RekeyOp <- IsapRekeyBits
+  CapUnit = 16
+  FixedResize = TRUE
+  FixedCmp = TRUE
